@@ -23,11 +23,12 @@ fn perms(n: usize) -> Vec<Vec<usize>> {
 /// and inline) and continue differently, so that different capture lengths reach routes of different depth and
 /// length; every path over a small alphabet.
 pub fn cells(max_len: usize, out: &mut Out) {
+    let max_len = max_len.saturating_sub(1);
     let params = ["{a}", "{*a}", "{a:even}", "{*a:even}", "{a:nota}", "{*a:nota}"];
     let prefixes = ["/", "/p/"];
     let seps = ["/", ".", "-"];
-    let conts = ["{*v}", "a/a", "a", "{b}", "{b}/c", "a/{*v}", "{*v}/z", "{b:nota}/a"];
-    let paths = all_strings(&["a", "/", ".", "c", "z"], max_len);
+    let conts = ["{*v}", "a/a", "a", "{b}", "{b}/c", "a/{*v}", "{*v}/z", "{b:nota}/a", "{bbbbbb}", "a-c", "a.c", "c/z"];
+    let paths = all_strings(&["a", "/", ".", "c", "z", "-"], max_len);
     for pre in prefixes {
         for par in params {
             for sep in seps {
@@ -47,6 +48,36 @@ pub fn cells(max_len: usize, out: &mut Out) {
                         for p in &paths {
                             // only paths that can reach the parameter
                             out.search(0, &format!("{pre}{p}"));
+                        }
+                        // structured longer paths: 2-4 tokens joined by the set's separator or '/', so that several
+                        // capture lengths succeed in turn on routes of different rank (better, worse, better)
+                        let toks = ["a", "c", "z"];
+                        for n in 2..=4usize {
+                            let mut idx = vec![0usize; n];
+                            loop {
+                                for joins in 0..(1u32 << (n - 1)) {
+                                    let mut p = String::from(pre);
+                                    for (k, t) in idx.iter().enumerate() {
+                                        if k > 0 {
+                                            p.push_str(if joins >> (k - 1) & 1 == 1 { "/" } else { sep });
+                                        }
+                                        p.push_str(toks[*t]);
+                                    }
+                                    out.search(0, &p);
+                                }
+                                let mut i = 0;
+                                while i < n {
+                                    idx[i] += 1;
+                                    if idx[i] < toks.len() {
+                                        break;
+                                    }
+                                    idx[i] = 0;
+                                    i += 1;
+                                }
+                                if i == n {
+                                    break;
+                                }
+                            }
                         }
                     }
                 }
